@@ -23,7 +23,7 @@ import (
 // allows for that crash point.
 
 var c02Opts = genOpts{MaxGroups: 2, MaxDataPerGroup: 2, MaxWriters: 4, MaxWrites: 5, MaxReads: 2,
-	Deletes: true, GC: true, MaxDeletes: 3, MaxGC: 2, NoReopen: false}
+	Deletes: true, GC: true, MaxDeletes: 3, MaxGC: 2, NoReopen: false, Rename: true}
 
 type c02Case struct {
 	Script vScript `json:"script"`
@@ -48,6 +48,7 @@ type c02Mark struct {
 	op       string
 	inv, ret int
 	durable  []uint32 // channels whose state at return is guaranteed persisted
+	renamed  []uint32 // channels whose name at return is guaranteed persisted
 }
 
 type c02Version struct {
@@ -55,7 +56,13 @@ type c02Version struct {
 	vals []string
 }
 
+type c02NameVersion struct {
+	from int
+	name string
+}
+
 type c02Rec struct {
+	names     map[uint32][]c02NameVersion
 	sch       vSchema
 	log       []simfs.Op
 	created   int // log length once all channels were created
@@ -90,6 +97,12 @@ func sameVals(a, b []string) bool {
 
 func (rec *c02Rec) snapshot(r *vRun, at int) {
 	for _, c := range r.sch.Chans {
+		nv := rec.names[c.Key]
+		if len(nv) == 0 || nv[len(nv)-1].name != r.names[c.Key] {
+			rec.names[c.Key] = append(nv, c02NameVersion{from: at, name: r.names[c.Key]})
+		}
+	}
+	for _, c := range r.sch.Chans {
 		v := valsOf(r, c.Key)
 		vs := rec.versions[c.Key]
 		if len(vs) == 0 || !sameVals(vs[len(vs)-1].vals, v) {
@@ -108,7 +121,7 @@ func c02Produce(t *testing.T, sc vScript, st *drv.Stats) (rec *c02Rec, fail *drv
 		}()
 		r := newRun(st, sc.Schema)
 		r.extraStep = c04Step
-		rec = &c02Rec{sch: sc.Schema, versions: map[uint32][]c02Version{}, written: map[uint32]map[string]bool{}}
+		rec = &c02Rec{sch: sc.Schema, versions: map[uint32][]c02Version{}, written: map[uint32]map[string]bool{}, names: map[uint32][]c02NameVersion{}}
 		if err := r.open(); err != nil {
 			fail = drv.Failf("unexpected-error", "dbopen:"+errSig(err), "open: %v", err)
 			return
@@ -161,6 +174,8 @@ func c02Produce(t *testing.T, sc vScript, st *drv.Stats) (rec *c02Rec, fail *drv
 				return
 			}
 			switch op.K {
+			case "rename":
+				m.renamed = op.Keys
 			case "delete":
 				m.durable = op.Keys
 			case "reopen":
@@ -497,6 +512,79 @@ func runC02(t *testing.T, c c02Case, st *drv.Stats) *drv.Failure {
 					fail = drv.Failf("recovery-"+lost, psig+":"+dtClass(ch),
 						"%s: channel %d (%s) recovered %d samples matching none of the allowed states (last durable op %d, last started op %d=%s): allowed %v; got %s",
 						where, ch.Key, ch.DT, len(gs), d, s, opn, allowed, shortVals(got))
+					continue nextPoint
+				}
+			}
+			// channel names: the recovered name is one the channel had between the last
+			// completed rename and the last started operation
+			for _, ch := range c.Script.Schema.Chans {
+				got, err := db.RetrieveChannel(r.ctx, ChannelKey(ch.Key))
+				if err != nil {
+					_ = db.Close()
+					fail = drv.Failf("recovery-channel-missing", psig+":"+errSig(err), "%s: channel %d cannot be retrieved after recovery: %v", where, ch.Key, err)
+					continue nextPoint
+				}
+				dn := -1
+				for i, m := range rec.marks {
+					if m.ret > p.n {
+						break
+					}
+					for _, k := range m.renamed {
+						if k == ch.Key {
+							dn = i
+						}
+					}
+				}
+				nv := rec.names[ch.Key]
+				okName := false
+				for vi, v := range nv {
+					until := len(rec.marks)
+					if vi+1 < len(nv) {
+						until = nv[vi+1].from
+					}
+					if v.from <= s && until-1 >= dn && v.name == got.Name {
+						okName = true
+					}
+				}
+				if !okName {
+					_ = db.Close()
+					fail = drv.Failf("recovery-name", psig, "%s: channel %d recovered with name %q, which it did not have between the last completed rename (op %d) and the crash", where, ch.Key, got.Name, dn)
+					continue nextPoint
+				}
+			}
+			// the recovered database must accept new writes: one fresh sample per index
+			// group, far away from everything the script wrote, committed and read back
+			for _, ch := range c.Script.Schema.Chans {
+				if !ch.IsIndex {
+					continue
+				}
+				keys := []ChannelKey{ChannelKey(ch.Key)}
+				series := []telem.Series{vTSSeries([]int64{90 * vSlot})}
+				for _, d := range c.Script.Schema.Chans {
+					if !d.IsIndex && d.Index == ch.Key {
+						keys = append(keys, ChannelKey(d.Key))
+						series = append(series, vSeries(d.DT, [][]byte{vValue(d.DT, d.Key, 1000000)}))
+					}
+				}
+				w, err := db.OpenWriter(r.ctx, WriterConfig{Start: telem.TimeStamp(90 * vSlot), Channels: keys, Sync: new(true), AutoIndexPersistInterval: AlwaysIndexPersistOnAutoCommit})
+				if err == nil {
+					_, err = w.Write(telem.MultiFrame(keys, series))
+					if err == nil {
+						_, err = w.Commit()
+					}
+					if cerr := w.Close(); err == nil {
+						err = cerr
+					}
+				}
+				if err != nil {
+					_ = db.Close()
+					fail = drv.Failf("recovery-unwritable", psig+":"+errSig(err), "%s: after recovery a new writer on index group %d failed: %v", where, ch.Key, err)
+					continue nextPoint
+				}
+				fr, err := db.Read(r.ctx, telem.TimeRange{Start: telem.TimeStamp(90 * vSlot), End: telem.TimeStamp(90*vSlot + 1)}, keys...)
+				if err != nil || fr.Len() != 1 {
+					_ = db.Close()
+					fail = drv.Failf("recovery-unwritable", psig+":readback", "%s: sample written after recovery on index group %d does not read back (err=%v, len=%d)", where, ch.Key, err, fr.Len())
 					continue nextPoint
 				}
 			}
